@@ -28,6 +28,8 @@ type probe struct {
 	build func(br *o4h.Bridge, r io.Reader) []byte
 	// pre: a handshake to be accepted first on another connection (replay probes)
 	replay bool
+	// validLen: for "extended" probes, the length of the embedded valid handshake
+	validLen int
 }
 
 func validHello(br *o4h.Bridge, r io.Reader, pad int, hourDelta int64) []byte {
@@ -75,6 +77,18 @@ func probes(thorough bool) []probe {
 			io.ReadFull(r, x)
 			return append(h, x...)
 		})
+	}
+	// the same with a handshake of the maximum length (8192 bytes): the
+	// server's mark search window is clamped to exactly that length
+	for _, ext := range []int{1, 100} {
+		ext := ext
+		add(fmt.Sprintf("extended-max/+%d", ext), func(br *o4h.Bridge, r io.Reader) []byte {
+			h := validHello(br, r, 8128, 0)
+			x := make([]byte, ext)
+			io.ReadFull(r, x)
+			return append(h, x...)
+		})
+		ps[len(ps)-1].validLen = 8192
 	}
 	flipAt := map[string][]int{"repr": {0, 31}, "pad": {32, 32 + pad - 1}, "mark": {32 + pad, 32 + pad + 15}, "mac": {32 + pad + 16, 32 + pad + 31}}
 	{
@@ -192,6 +206,7 @@ type trace struct {
 	sent     int64
 	wrapErr  bool
 	panics   string
+	readEnds []int64 // stream offsets at which the server's reads ended
 }
 
 func (t trace) String() string {
@@ -264,6 +279,11 @@ func runProbe(c *mc.Ctx, br *o4h.Bridge, sf base.ServerFactory, blob []byte, d d
 		tr.closeAt = t.Sub(start)
 	}
 	tr.consumed = sw.In.Read
+	var off int64
+	for _, n := range sw.ReadSizes {
+		off += int64(n)
+		tr.readEnds = append(tr.readEnds, off)
+	}
 	_ = sentBeforeClose
 	return tr
 }
@@ -321,12 +341,16 @@ func main() {
 									blob = p.build(br, pr)
 								}
 							})
-							if strings.HasPrefix(p.name, "extended/") {
+							if strings.HasPrefix(p.name, "extended") {
+								vl := p.validLen
+								if vl == 0 {
+									vl = 32 + 85 + 32
+								}
 								// a chunk boundary exactly at the end of the embedded valid
 								// handshake presents a valid handshake first: legitimately accepted
 								skip := false
 								for _, cut := range d.splits(len(blob)) {
-									if cut == 32+85+32 {
+									if cut == vl {
 										skip = true
 									}
 								}
@@ -343,6 +367,24 @@ func main() {
 							}
 							c.Observe(p.name, tr.String())
 							c.Case(p.name, tr.String())
+							if strings.HasPrefix(p.name, "extended") {
+								// one of the server's reads ended exactly at the end of the
+								// embedded valid handshake (e.g. its 8192-byte buffer was
+								// full): it was presented a valid handshake first
+								vl, legit := int64(p.validLen), false
+								if vl == 0 {
+									vl = 32 + 85 + 32
+								}
+								for _, e := range tr.readEnds {
+									if e == vl {
+										legit = true
+									}
+								}
+								if legit {
+									c.Count("extended_probes_read_boundary_at_valid_length", 1)
+									continue
+								}
+							}
 							if tr.wrote != 0 {
 								fail(c, "silent", "wrote/"+class(p.name), "probe %s (%s): the server wrote %d bytes", p.name, d.name, tr.wrote)
 								continue
